@@ -336,7 +336,7 @@ def codec_replay(ctx, q, behs, exe, wd, tag):
         if what is None:
             ctx.replays += 1; ctx.events += nsteps; nimg += image_only
             continue
-        if rc != 0 and i >= max(list(by) + [0]):
+        if rc != 0 and i >= max([k for k in by if isinstance(k, int)] + [0]):
             what += "; the driver then died (rc=%d): %s" % (rc, se.strip()[-200:])
         if len(ctx.violations) >= conc.MAXV:
             break
